@@ -9,9 +9,9 @@ import (
 	"crypto/sha1"
 	"crypto/sha256"
 	"encoding/base64"
+	"encoding/binary"
 	"encoding/hex"
 	"errors"
-	"encoding/binary"
 	"fmt"
 	"hash/crc32"
 	"hash/crc64"
@@ -303,7 +303,7 @@ func (c *c04Case) vals(etag string, a, b, d, e, f *string) string {
 		c04SumTok(b), c04SumTok(d), c04SumTok(e), c04SumTok(f))
 }
 
-func typeTok(t *string) string {
+func c04TypeTok(t *string) string {
 	if t == nil {
 		return "nil"
 	}
@@ -318,7 +318,7 @@ func (c *c04Case) head(k int) {
 		return
 	}
 	c.out.Line("r ok %s type=%s size=%d", c.vals(o.ETag, o.ChecksumCRC32, o.ChecksumCRC32C, o.ChecksumCRC64NVME, o.ChecksumSHA1, o.ChecksumSHA256),
-		typeTok(o.ChecksumType), o.Size)
+		c04TypeTok(o.ChecksumType), o.Size)
 }
 
 func (c *c04Case) get(k int) {
@@ -347,7 +347,7 @@ func (c *c04Case) get(k int) {
 		body = "mismatch"
 	}
 	c.out.Line("r ok %s type=%s size=%d body=%s", c.vals(o.ETag, o.ChecksumCRC32, o.ChecksumCRC32C, o.ChecksumCRC64NVME, o.ChecksumSHA1, o.ChecksumSHA256),
-		typeTok(o.ChecksumType), o.Size, body)
+		c04TypeTok(o.ChecksumType), o.Size, body)
 }
 
 func (c *c04Case) put(k int, body []byte, sup []c04Supplied) {
@@ -451,7 +451,7 @@ func (c *c04Case) complete(uid int, supf func(parts [][]byte, whole []byte) []c0
 	if err != nil {
 		c.out.Line("r err %s", c04Err(err))
 	} else {
-		c.out.Line("r ok %s type=%s", c.vals(r.ETag, r.ChecksumCRC32, r.ChecksumCRC32C, r.ChecksumCRC64NVME, r.ChecksumSHA1, r.ChecksumSHA256), typeTok(r.ChecksumType))
+		c.out.Line("r ok %s type=%s", c.vals(r.ETag, r.ChecksumCRC32, r.ChecksumCRC32C, r.ChecksumCRC64NVME, r.ChecksumSHA1, r.ChecksumSHA256), c04TypeTok(r.ChecksumType))
 		c.objs[u.key] = &c04Obj{parts: parts, multi: true}
 		delete(c.ups, uid)
 	}
@@ -651,15 +651,15 @@ func runC04(args []string) {
 			c.copyObj(3, 6)
 			c.copyObj(5, 7)
 			c.put(10, r.Bytes(77), nil)
-			c.copyObj(10, 11) // a single-part object: all five checksums travel
-			c.copyObj(4, 12)  // a COMPOSITE object
+			c.copyObj(10, 11)               // a single-part object: all five checksums travel
+			c.copyObj(4, 12)                // a COMPOSITE object
 			c.appendObj(6, r.Bytes(3), nil) // append to the COPY of a multipart object
 			c.copyRange(3, 8, 100, 701)
 			c.get(8)
 			c.create(2, 9, "FULL_OBJECT")
-			c.partCopy(2, 1, 3, 0, 700, false)   // exactly the first part of key 3: shares the stored row
-			c.partCopy(2, 2, 3, 5, 600, false)   // a proper sub-range: streamed
-			c.partCopy(2, 3, 1, 0, 1, true)      // a whole single-part object
+			c.partCopy(2, 1, 3, 0, 700, false) // exactly the first part of key 3: shares the stored row
+			c.partCopy(2, 2, 3, 5, 600, false) // a proper sub-range: streamed
+			c.partCopy(2, 3, 1, 0, 1, true)    // a whole single-part object
 			c.complete(2, nil)
 			c.get(9)
 			c.del(1)
